@@ -117,8 +117,17 @@ class CountingInjector(Injector):
         return self.calls
 
 
+class UnhashableInjector(Injector):
+    """A callable instance that defines __eq__ and therefore has no hash (what a @dataclass with __call__ is)."""
+
+    __hash__ = None
+
+    def __eq__(self, other):
+        return self is other
+
+
 INJECTORS = {"plain": Injector, "budget": BudgetInjector, "falsy": NeverTrueInjector, "anyargs": AnyArgsInjector,
-             "counting": CountingInjector}
+             "counting": CountingInjector, "unhashable": UnhashableInjector}
 
 
 def n_subcubes(w):
@@ -384,7 +393,7 @@ def plans_for(w, rng, tier, est_steps):
                       "recovery": rng.choice(("serial", "pooled"))})
     for p in plans:
         p.setdefault("poolsize", rng.choice((1, 2, 3, 4, 8)))
-        p["injector"] = rng.choice(("plain", "plain", "budget", "falsy", "anyargs", "counting"))
+        p["injector"] = rng.choice(("plain", "plain", "budget", "falsy", "anyargs", "counting", "unhashable"))
         p["via"] = rng.choice(("instance", "instance", "instance", "subclass-attribute", "subclass-method"))
         if p["via"] != "instance":
             p["injector"] = "plain"
